@@ -680,6 +680,10 @@ class Interp(object):
             return out
         if isinstance(node, ast.Pass):
             return states
+        if isinstance(node, ast.Assert):
+            # over-approximation of the accepted paths: with -O the statement does not exist, without it it can only remove paths
+            # (AssertionError is neither an accepted configuration nor the documented rejection)
+            return states
         if isinstance(node, FUNC_TYPES):
             return states
         raise Unsupported("statement kind %s: %s" % (type(node).__name__, short(node, 60)))
